@@ -9,6 +9,95 @@
 From GC Require Import Base Model_Regex Model_RegexSimplify Proofs_Regex Proofs_RegexRules.
 Local Open Scope nat_scope.
 
+(* ---------- the relation carried through the induction ----------
+   observational equivalence, plus the two syntactic facts that keep the emitted tree inside the domain in
+   which the matcher model is exact (Model_Regex.loops_ok) *)
+Definition rel (y x : rx) : Prop := y ≈ x /\ consumes y = consumes x /\ loops_ok y = loops_ok x.
+Infix "≃" := rel (at level 70).
+
+Lemma rel_refl a : a ≃ a. Proof. split; [apply req_refl|split; reflexivity]. Qed.
+Lemma rel_sym a b : a ≃ b -> b ≃ a.
+Proof. intros (H1 & H2 & H3). split; [apply req_sym, H1|split; congruence]. Qed.
+Lemma rel_trans a b c : a ≃ b -> b ≃ c -> a ≃ c.
+Proof. intros (H1 & H2 & H3) (G1 & G2 & G3). split; [eapply req_trans; eassumption|split; congruence]. Qed.
+Lemma rel_cat a a' b b' : a ≃ a' -> b ≃ b' -> RCat a b ≃ RCat a' b'.
+Proof. intros (H1 & H2 & H3) (G1 & G2 & G3). split; [apply req_cat; assumption|split; simpl; congruence]. Qed.
+Lemma rel_alt a a' b b' : a ≃ a' -> b ≃ b' -> RAlt a b ≃ RAlt a' b'.
+Proof. intros (H1 & H2 & H3) (G1 & G2 & G3). split; [apply req_alt; assumption|split; simpl; congruence]. Qed.
+Lemma rel_star g a a' : a ≃ a' -> RStar g a ≃ RStar g a'.
+Proof. intros (H1 & H2 & H3). split; [apply req_star; assumption|split; simpl; congruence]. Qed.
+Lemma rel_plus g a a' : a ≃ a' -> RPlus g a ≃ RPlus g a'.
+Proof. intros (H1 & H2 & H3). split; [apply req_plus; assumption|split; simpl; congruence]. Qed.
+Lemma rel_quest g a a' : a ≃ a' -> RQuest g a ≃ RQuest g a'.
+Proof. intros (H1 & H2 & H3). split; [apply req_quest; assumption|split; simpl; congruence]. Qed.
+
+Lemma rel_cat_empty_l a : RCat REmpty a ≃ a.
+Proof. split; [apply cat_empty_l|split; reflexivity]. Qed.
+Lemma rel_cat_empty_r a : RCat a REmpty ≃ a.
+Proof. split; [apply cat_empty_r|split; [simpl; apply orb_false_r|simpl; apply andb_true_r]]. Qed.
+Lemma rel_cat_assoc a b c : RCat (RCat a b) c ≃ RCat a (RCat b c).
+Proof. split; [apply cat_assoc|split; [simpl; symmetry; apply orb_assoc|simpl; symmetry; apply andb_assoc]]. Qed.
+
+Lemma rel_cat_list_cons x l : cat_list (x :: l) ≃ RCat x (cat_list l).
+Proof.
+  destruct l as [|y l]; simpl.
+  - apply rel_sym, rel_cat_empty_r.
+  - apply rel_refl.
+Qed.
+
+Lemma rel_cat_list_app l1 l2 : cat_list (l1 ++ l2) ≃ RCat (cat_list l1) (cat_list l2).
+Proof.
+  induction l1 as [|x l1 IH].
+  - simpl. apply rel_sym, rel_cat_empty_l.
+  - change ((x :: l1) ++ l2)%list with (x :: (l1 ++ l2))%list.
+    eapply rel_trans; [apply rel_cat_list_cons|].
+    eapply rel_trans; [apply rel_cat; [apply rel_refl|exact IH]|].
+    eapply rel_trans; [apply rel_sym, rel_cat_assoc|].
+    apply rel_cat; [apply rel_sym, rel_cat_list_cons|apply rel_refl].
+Qed.
+
+Lemma rel_cat_list_congr l1 l2 : Forall2 rel l1 l2 -> cat_list l1 ≃ cat_list l2.
+Proof.
+  induction 1 as [|x y l1 l2 Hxy Hl IH].
+  - apply rel_refl.
+  - eapply rel_trans; [apply rel_cat_list_cons|]. apply rel_sym.
+    eapply rel_trans; [apply rel_cat_list_cons|]. apply rel_sym.
+    apply rel_cat; assumption.
+Qed.
+
+Lemma rel_alt_list_congr l1 l2 : Forall2 rel l1 l2 -> alt_list l1 ≃ alt_list l2.
+Proof.
+  induction 1 as [|x y l1 l2 Hxy Hl IH].
+  - apply rel_refl.
+  - destruct Hl as [|x' y' l1' l2' Hx' Hl'].
+    + simpl. exact Hxy.
+    + rewrite !alt_list_cons. apply rel_alt; assumption.
+Qed.
+
+Lemma rel_merge g a : consumes a = true -> RCat a (RStar g a) ≃ RPlus g a.
+Proof.
+  intros Hc. split; [apply merge_x_xstar_plus, Hc|split; [simpl; apply orb_false_r|]].
+  simpl. rewrite Hc. destruct (loops_ok a); reflexivity.
+Qed.
+
+Lemma alt_sets_synt fold rs : rs <> [] ->
+  consumes (alt_list (map (set1 fold) rs)) = true /\ loops_ok (alt_list (map (set1 fold) rs)) = true.
+Proof.
+  induction rs as [|r rs IH]; [congruence|]. intros _. destruct rs as [|r2 rs]; [split; reflexivity|].
+  change (map (set1 fold) (r :: r2 :: rs)) with (set1 fold r :: set1 fold r2 :: map (set1 fold) rs).
+  rewrite alt_list_cons. destruct (IH ltac:(discriminate)) as [H1 H2]. simpl in *. rewrite H1, H2. split; reflexivity.
+Qed.
+
+Lemma rel_alt_chars_class fold rs : rs <> [] ->
+  alt_list (map (set1 fold) rs) ≃ RSet {| c_neg := false; c_fold := fold; c_items := char_items rs |}.
+Proof.
+  intros H. destruct (alt_sets_synt fold rs H) as [H1 H2].
+  split; [apply alt_chars_class, H|split; [rewrite H1; reflexivity|rewrite H2; reflexivity]].
+Qed.
+
+Lemma rel_rset c1 c2 : (forall r, in_cls c1 r = in_cls c2 r) -> RSet c1 ≃ RSet c2.
+Proof. intros H. split; [apply rset_ext, H|split; reflexivity]. Qed.
+
 Fixpoint omap {A B} (f : A -> option B) (l : list A) : option (list B) :=
   match l with
   | [] => Some []
@@ -366,44 +455,44 @@ Qed.
 Lemma sden_not_flagonly e x : sden e = Some x -> op_eqb (sx_op e) OpFlagOnlyGroup = false.
 Proof. destruct e as [o v a]. destruct o; try reflexivity. simpl. discriminate. Qed.
 
-Lemma ncopies_congr n a b : a ≈ b -> Forall2 req (ncopies n a) (ncopies n b).
+Lemma ncopies_congr n a b : a ≃ b -> Forall2 rel (ncopies n a) (ncopies n b).
 Proof. intros H. induction n; simpl; constructor; assumption. Qed.
 
-Lemma nest_quest_congr g a b k : a ≈ b -> nest_quest g a k ≈ nest_quest g b k.
+Lemma nest_quest_congr g a b k : a ≃ b -> nest_quest g a k ≃ nest_quest g b k.
 Proof.
-  intros H. induction k as [|k IH]; [apply req_refl|].
+  intros H. induction k as [|k IH]; [apply rel_refl|].
   destruct k as [|k]; simpl.
-  - apply req_quest. exact H.
-  - apply req_quest. apply req_cat; [exact H|exact IH].
+  - apply rel_quest. exact H.
+  - apply rel_quest. apply rel_cat; [exact H|exact IH].
 Qed.
 
-Lemma Forall2_app_req l1 l2 l3 l4 : Forall2 req l1 l2 -> Forall2 req l3 l4 -> Forall2 req (l1 ++ l3) (l2 ++ l4).
+Lemma Forall2_app_req l1 l2 l3 l4 : Forall2 rel l1 l2 -> Forall2 rel l3 l4 -> Forall2 rel (l1 ++ l3) (l2 ++ l4).
 Proof. intros H1 H2. induction H1; simpl; [exact H2|constructor; assumption]. Qed.
 
-Lemma build_repeat_congr g a b mn mx : a ≈ b -> build_repeat g a mn mx ≈ build_repeat g b mn mx.
+Lemma build_repeat_congr g a b mn mx : a ≃ b -> build_repeat g a mn mx ≃ build_repeat g b mn mx.
 Proof.
   intros H. unfold build_repeat. destruct mx as [mxv|].
-  - destruct (Nat.eqb mxv 0); [apply req_refl|].
+  - destruct (Nat.eqb mxv 0); [apply rel_refl|].
     destruct (Nat.eqb mn 1 && Nat.eqb mxv 1); [exact H|].
     destruct (Nat.eqb mn mxv).
-    + apply cat_list_congr, ncopies_congr, H.
-    + apply cat_list_congr, Forall2_app_req; [apply ncopies_congr, H|].
+    + apply rel_cat_list_congr, ncopies_congr, H.
+    + apply rel_cat_list_congr, Forall2_app_req; [apply ncopies_congr, H|].
       constructor; [apply nest_quest_congr, H|constructor].
-  - destruct mn as [|k]; [apply req_star, H|].
-    apply cat_list_congr, Forall2_app_req; [apply ncopies_congr, H|].
-    constructor; [apply req_plus, H|constructor].
+  - destruct mn as [|k]; [apply rel_star, H|].
+    apply rel_cat_list_congr, Forall2_app_req; [apply ncopies_congr, H|].
+    constructor; [apply rel_plus, H|constructor].
 Qed.
 
-Lemma quant_build_congr g qo rep a b qa : a ≈ b ->
-  quant_build dst0 g qo rep a = Some qa -> exists qb, quant_build dst0 g qo rep b = Some qb /\ qb ≈ qa.
+Lemma quant_build_congr g qo rep a b qa : a ≃ b ->
+  quant_build dst0 g qo rep a = Some qa -> exists qb, quant_build dst0 g qo rep b = Some qb /\ qb ≃ qa.
 Proof.
   intros H. unfold quant_build. destruct qo; try discriminate.
-  - intros E. inversion E. eexists. split; [reflexivity|]. apply req_star, req_sym, H.
-  - intros E. inversion E. eexists. split; [reflexivity|]. apply req_plus, req_sym, H.
-  - intros E. inversion E. eexists. split; [reflexivity|]. apply req_quest, req_sym, H.
+  - intros E. inversion E. eexists. split; [reflexivity|]. apply rel_star, rel_sym, H.
+  - intros E. inversion E. eexists. split; [reflexivity|]. apply rel_plus, rel_sym, H.
+  - intros E. inversion E. eexists. split; [reflexivity|]. apply rel_quest, rel_sym, H.
   - destruct (parse_repeat rep) as [[mn mx]|]; [|discriminate].
     destruct (_ || _); [discriminate|]. intros E. inversion E. eexists. split; [reflexivity|].
-    apply build_repeat_congr, req_sym, H.
+    apply build_repeat_congr, rel_sym, H.
 Qed.
 
 (* the decimal text of the run length parses back: checked for every length a 60-byte pattern can have *)
@@ -417,7 +506,7 @@ Qed.
 (* ---------- the statement proved by induction ---------- *)
 Definition P (e : sx) : Prop :=
   guards e = true -> forall x, sden e = Some x ->
-  exists ys, omap sden (fst (walk_a true e)) = Some ys /\ cat_list ys ≈ x.
+  exists ys, omap sden (fst (walk_a true e)) = Some ys /\ cat_list ys ≃ x.
 
 Definition quant_node (q : sx) : bool :=
   match q with
@@ -428,15 +517,15 @@ Definition quant_node (q : sx) : bool :=
 (* wrapping what was emitted for x in a shorthand operator *)
 Lemma wrap_quant g qo sfx xs ys x' xq :
   (qo = OpStar \/ qo = OpPlus \/ qo = OpQuestion) ->
-  omap sden xs = Some ys -> cat_list ys ≈ x' ->
+  omap sden xs = Some ys -> cat_list ys ≃ x' ->
   quant_build dst0 g qo EmptyString x' = Some xq ->
   exists q', wrap1 qo sfx xs = [q'] /\ is_quant (sx_op q') = true /\ quant_node q' = true /\
-             exists y, sdeng g q' = Some y /\ y ≈ xq.
+             exists y, sdeng g q' = Some y /\ y ≃ xq.
 Proof.
   intros Hq Hys Hc Hb. unfold wrap1. eexists. split; [reflexivity|].
   pose proof (sden_seq_node xs ys Hys) as Hs.
   pose proof (sden_not_flagonly _ _ Hs) as Hf.
-  destruct (quant_build_congr g qo EmptyString x' (cat_list ys) xq (req_sym _ _ Hc) Hb) as (qb & Hqb & Hreq).
+  destruct (quant_build_congr g qo EmptyString x' (cat_list ys) xq (rel_sym _ _ Hc) Hb) as (qb & Hqb & Hreq).
   destruct Hq as [Hq|[Hq|Hq]]; subst qo; (split; [reflexivity|]; split; [reflexivity|]; exists qb; split; [|exact Hreq]);
     cbn [sdeng sx_op]; rewrite Hf; unfold sden in Hs; rewrite Hs; exact Hqb.
 Qed.
@@ -445,9 +534,9 @@ Lemma quant_step q : quant_node q = true ->
   (forall x, In x (sx_args q) -> P x) -> guards q = true ->
   forall g xq, sdeng g q = Some xq ->
   if dropped_repeat q
-  then exists ys, omap sden (fst (walk_a true q)) = Some ys /\ cat_list ys ≈ xq
+  then exists ys, omap sden (fst (walk_a true q)) = Some ys /\ cat_list ys ≃ xq
   else exists q', fst (walk_a true q) = [q'] /\ is_quant (sx_op q') = true /\ quant_node q' = true /\
-                  exists y, sdeng g q' = Some y /\ y ≈ xq.
+                  exists y, sdeng g q' = Some y /\ y ≃ xq.
 Proof.
   intros Hq IH Hg g xq Hs. destruct q as [qo qv qargs].
   destruct qo; try discriminate Hq.
@@ -490,14 +579,14 @@ Proof.
       apply (wrap_quant g OpStar "*" xs ys x' xq); auto. }
     destruct (String.eqb_spec (sx_val r) "{0}") as [E|N0].
     { rewrite E in *. cbn [orb andb fst]. exists []. split; [reflexivity|].
-      inversion Hs. subst xq. apply req_refl. }
+      inversion Hs. subst xq. apply rel_refl. }
     destruct (String.eqb_spec (sx_val r) "{1}") as [E|N1].
     { rewrite E in *. cbn [orb andb fst]. exists ys. split; [exact Hys|].
       inversion Hs. subst xq. exact Hc. }
     cbn [orb fst].
     eexists. split; [reflexivity|]. split; [reflexivity|]. split; [reflexivity|].
     pose proof (sden_seq_node xs ys Hys) as Hsn.
-    destruct (quant_build_congr g OpRepeat (sx_val r) x' (cat_list ys) xq (req_sym _ _ Hc) Hs) as (qb & Hqb & Hreq).
+    destruct (quant_build_congr g OpRepeat (sx_val r) x' (cat_list ys) xq (rel_sym _ _ Hc) Hs) as (qb & Hqb & Hreq).
     exists qb. split; [|exact Hreq].
     cbn [sdeng sx_op]. rewrite (sden_not_flagonly _ _ Hsn). unfold sden in Hsn. rewrite Hsn. exact Hqb.
 Qed.
@@ -519,10 +608,10 @@ Proof. reflexivity. Qed.
 
 Lemma wc_sound l : (forall x, In x l -> P x) ->
   forall skip xs, gcT l skip = true -> omap sden l = Some xs ->
-  exists ys, omap sden (fst (wcT l skip)) = Some ys /\ cat_list ys ≈ cat_list (skipn skip xs).
+  exists ys, omap sden (fst (wcT l skip)) = Some ys /\ cat_list ys ≃ cat_list (skipn skip xs).
 Proof.
   induction l as [|x rest IHl]; intros HP skip xs Hg Hs.
-  - simpl in Hs. inversion Hs. exists []. split; [reflexivity|]. destruct skip; apply req_refl.
+  - simpl in Hs. inversion Hs. exists []. split; [reflexivity|]. destruct skip; apply rel_refl.
   - simpl in Hs. destruct (sden x) as [x'|] eqn:Ex; [|discriminate].
     destruct (omap sden rest) as [rs|] eqn:Er; [|discriminate]. inversion Hs; subst xs. clear Hs.
     assert (HPr : forall y, In y rest -> P y) by (intros y Hy; apply HP; right; exact Hy).
@@ -533,8 +622,8 @@ Proof.
       * (* no rule *)
         destruct (IHl HPr 0 rs Hg eq_refl) as (ys2 & Hys2 & Hc2).
         unfold a_app. cbn [fst]. rewrite omap_app, Hys1, Hys2. eexists. split; [reflexivity|].
-        eapply req_trans; [apply cat_list_app|].
-        eapply req_trans; [apply req_cat; [exact Hc1|exact Hc2]|]. apply req_sym, cat_list_cons.
+        eapply rel_trans; [apply rel_cat_list_app|].
+        eapply rel_trans; [apply rel_cat; [exact Hc1|exact Hc2]|]. apply rel_sym, rel_cat_list_cons.
       * (* xx* => x+ *)
         apply andb_true_iff in Hg as [Hm Hg]. unfold merge_ok in Hm.
         destruct rest as [|[so sv sargs] rest']; [discriminate|].
@@ -554,13 +643,13 @@ Proof.
         eexists. split; [reflexivity|].
         change ((?a :: nil) ++ ys2)%list with (y :: ys2).
         cbn [app].
-        eapply req_trans; [apply cat_list_cons|].
-        eapply req_trans; [apply req_cat; [exact Hyreq|exact Hc2]|].
+        eapply rel_trans; [apply rel_cat_list_cons|].
+        eapply rel_trans; [apply rel_cat; [exact Hyreq|exact Hc2]|].
         cbn [skipn].
-        eapply req_trans; [apply req_cat; [apply req_sym, (merge_x_xstar_plus true x' Hcons)|apply req_refl]|].
-        eapply req_trans; [apply cat_assoc|].
-        apply req_sym.
-        eapply req_trans; [apply cat_list_cons|]. apply req_cat; [apply req_refl|]. apply cat_list_cons.
+        eapply rel_trans; [apply rel_cat; [apply rel_sym, (rel_merge true x' Hcons)|apply rel_refl]|].
+        eapply rel_trans; [apply rel_cat_assoc|].
+        apply rel_sym.
+        eapply rel_trans; [apply rel_cat_list_cons|]. apply rel_cat; [apply rel_refl|]. apply rel_cat_list_cons.
       * (* run-length folding *)
         apply andb_true_iff in Hg as [Hf Hg]. unfold fold_ok in Hf.
         apply andb_true_iff in Hf as [Hf Hall]. apply andb_true_iff in Hf as [Hf Hlen].
@@ -574,11 +663,11 @@ Proof.
         cbn [sdeng sx_op sx_val]. rewrite (sden_not_flagonly _ _ Hsn). unfold sden in Hsn. rewrite Hsn.
         rewrite (fold_repeat_text (S n) (cat_list ys1)) by lia. rewrite Hys2.
         eexists. split; [reflexivity|]. cbn [app].
-        eapply req_trans; [apply cat_list_cons|].
-        eapply req_trans; [apply req_cat; [apply cat_list_congr, (ncopies_congr (S n) _ x' Hc1)|exact Hc2]|].
-        apply req_sym. rewrite Hrs at 1.
+        eapply rel_trans; [apply rel_cat_list_cons|].
+        eapply rel_trans; [apply rel_cat; [apply rel_cat_list_congr, (ncopies_congr (S n) _ x' Hc1)|exact Hc2]|].
+        apply rel_sym. rewrite Hrs at 1.
         change (x' :: ncopies n x' ++ skipn n rs)%list with (ncopies (S n) x' ++ skipn n rs)%list.
-        apply cat_list_app.
+        apply rel_cat_list_app.
     + cbn [gcT] in Hg. cbn [wcT]. rewrite skipn_cons_S. apply (IHl HPr k rs Hg eq_refl).
 Qed.
 
@@ -587,7 +676,7 @@ Fixpoint gaT (l : list sx) : bool := match l with [] => true | x :: r => guards 
 
 Lemma wa_sound l : (forall x, In x l -> P x) ->
   forall xs, gaT l = true -> omap sden l = Some xs ->
-  exists ys, omap sden (fst (waT l)) = Some ys /\ Forall2 req ys xs.
+  exists ys, omap sden (fst (waT l)) = Some ys /\ Forall2 rel ys xs.
 Proof.
   induction l as [|x rest IHl]; intros HP xs Hg Hs.
   - simpl in Hs. inversion Hs. exists []. split; [reflexivity|constructor].
@@ -751,7 +840,7 @@ Qed.
 Lemma class_general neg o v items x :
   (o = OpCharClass /\ neg = false \/ o = OpNegCharClass /\ neg = true) ->
   forallb item_ok items = true -> sden (X o v items) = Some x ->
-  exists y, sden (X o v (fst (wlT items))) = Some y /\ y ≈ x.
+  exists y, sden (X o v (fst (wlT items))) = Some y /\ y ≃ x.
 Proof.
   intros Ho Hok Hs.
   assert (E : forall its, sden (X o v its) =
@@ -761,7 +850,7 @@ Proof.
   rewrite E in Hs. destruct (class_items items) as [cis|] eqn:Eci; [|discriminate]. cbn [option_map] in Hs.
   inversion Hs; subst x. destruct (items_sound items cis Hok Eci) as (cis' & Hc' & Hsame).
   rewrite E, Hc'. cbn [option_map]. eexists. split; [reflexivity|].
-  apply rset_ext. intros r. unfold in_cls. cbn [c_neg c_fold c_items]. rewrite Hsame. reflexivity.
+  apply rel_rset. intros r. unfold in_cls. cbn [c_neg c_fold c_items]. rewrite Hsame. reflexivity.
 Qed.
 
 Lemma quant_node_of g q x : is_quant (sx_op q) = true -> sdeng g q = Some x -> quant_node q = true.
@@ -779,11 +868,11 @@ Lemma guards_alt_general v args :
 Proof. intros H1 H2. cbn [guards]. rewrite H1, H2. reflexivity. Qed.
 
 Ltac leaf_case x Hs :=
-  exists [x]; split; [cbn [walk_a fst omap]; rewrite Hs; reflexivity|apply req_refl].
+  exists [x]; split; [cbn [walk_a fst omap]; rewrite Hs; reflexivity|apply rel_refl].
 
 Ltac table_case Hs :=
   vm_compute in Hs; inversion Hs; subst; eexists; split; [vm_compute; reflexivity|];
-  cbn [cat_list]; apply rset_ext; intros r0; unfold in_cls, in_item; cbn [c_neg c_fold c_items existsb];
+  cbn [cat_list]; apply rel_rset; intros r0; unfold in_cls, in_item; cbn [c_neg c_fold c_items existsb];
   repeat match goal with |- context [existsb ?f ?l] => destruct (existsb f l) end; reflexivity.
 
 Theorem walk_sound e : P e.
@@ -810,13 +899,13 @@ Proof.
       cbn [walk_a]. unfold allChars. cbn [sx_args]. rewrite Hall, Hmeta.
       cbn [andb fst omap]. unfold sden at 1. cbn [sdeng leaf_op]. cbn [den]. rewrite Hci. cbn [option_map fst].
       eexists. split; [reflexivity|]. cbn [cat_list].
-      apply req_sym, alt_chars_class. destruct args; [discriminate Hg|]. destruct rs; [discriminate Hlen|discriminate].
+      apply rel_sym, rel_alt_chars_class. destruct args; [discriminate Hg|]. destruct rs; [discriminate Hlen|discriminate].
     + destruct (factorPrefixSuffix true (X OpAlt v args)) eqn:Ef.
       * cbn [guards] in Hg. rewrite Eall, Ef in Hg. discriminate.
       * rewrite (guards_alt_general v args Eall Ef) in Hg.
         destruct (wa_sound args IHin xs Hg Ea) as (ys & Hys & Hc).
         rewrite (walk_a_alt_general v args Eall Ef). cbn [fst omap]. unfold sden at 1. rewrite sdeng_alt, Hys.
-        cbn [option_map]. eexists. split; [reflexivity|]. cbn [cat_list]. apply alt_list_congr. exact Hc.
+        cbn [option_map]. eexists. split; [reflexivity|]. cbn [cat_list]. apply rel_alt_list_congr. exact Hc.
   - (* Star *)
     destruct args as [|y [|? ?]]; try (simpl in Hs; discriminate Hs).
     pose proof (quant_step (X OpStar v [y]) eq_refl IHin Hg true x Hs) as Q. cbn [dropped_repeat] in Q.
@@ -850,7 +939,7 @@ Proof.
   - (* Char *) leaf_case x Hs.
   - (* EscapeChar *)
     cbn [walk_a]. destruct (mem_s v removable_escapes) eqn:Em.
-    + exists [x]. split; [|apply req_refl]. cbn [fst omap]. rewrite <- (escape_removal_sden v args Em), Hs. reflexivity.
+    + exists [x]. split; [|apply rel_refl]. cbn [fst omap]. rewrite <- (escape_removal_sden v args Em), Hs. reflexivity.
     + leaf_case x Hs.
   - (* EscapeMeta *) leaf_case x Hs.
   - (* EscapeOctal *) leaf_case x Hs.
@@ -870,7 +959,7 @@ Proof.
            assert (E : sden (X OpChar iv ia) = sden (X OpCharClass v [X OpChar iv ia])).
            { rewrite sden_char. unfold sden. cbn [sdeng leaf_op den class_items]. unfold class_item, escape_rune.
              destruct (rune_of iv); reflexivity. }
-           exists [x]. split; [|apply req_refl]. cbn [omap]. rewrite E, Hs. reflexivity.
+           exists [x]. split; [|apply rel_refl]. cbn [omap]. rewrite E, Hs. reflexivity.
         -- (* [\d] => \d *)
            assert (E : sden (X OpEscapeChar iv ia) = sden (X OpCharClass v [X OpEscapeChar iv ia])).
            { unfold sden. cbn [sdeng leaf_op den class_items]. unfold class_item.
@@ -880,7 +969,7 @@ Proof.
                reflexivity.
              - exfalso. unfold sden in Hs. cbn [sdeng leaf_op den class_items] in Hs. unfold class_item in Hs.
                rewrite Ep, Ee in Hs. discriminate Hs. }
-           exists [x]. split; [|apply req_refl]. cbn [omap]. rewrite E, Hs. reflexivity.
+           exists [x]. split; [|apply rel_refl]. cbn [omap]. rewrite E, Hs. reflexivity.
     + unfold items_ok in Hg. cbn [sx_args] in Hg.
       destruct (class_general false OpCharClass v args x (or_introl (conj eq_refl eq_refl)) Hg Hs) as (y & Hy & Hreq).
       rewrite (walk_a_class v args Es). cbn [omap]. rewrite Hy. exists [y]. split; [reflexivity|exact Hreq].
@@ -909,21 +998,25 @@ Proof.
 Qed.
 
 (* ---------- the theorem in the vocabulary of the property ---------- *)
-Definition in_fragment (e : sx) : bool := match sden e with Some _ => true | None => false end.
+(* no capture group, no flag group, no \Q..\E, and inside the domain where the matcher model is Go's semantics *)
+Definition in_fragment (e : sx) : bool := match sden e with Some x => loops_ok x | None => false end.
 Definition avoids_defects (e : sx) : bool := guards e.
 
 Theorem simplify_sound_fragment e :
   in_fragment e = true -> avoids_defects e = true ->
   exists x y, den_top e = Some (x, 0, []) /\ den_top (simp_ast e) = Some (y, 0, []) /\ y ≈ x /\
+              model_exact (simp_ast e) = true /\
               forall subject, find_go (simp_ast e) subject = find_go e subject.
 Proof.
   unfold in_fragment, avoids_defects. intros Hf Hg. destruct (sden e) as [x|] eqn:Hs; [|discriminate].
-  destruct (walk_sound e Hg x Hs) as (ys & Hys & Hc).
+  destruct (walk_sound e Hg x Hs) as (ys & Hys & Hc & Hcons & Hloops).
   pose proof (sden_seq_node _ ys Hys) as Hsn. fold (simp_ast e) in Hsn.
   pose proof (sden_den e x dst0 eq_refl Hs) as H1.
   pose proof (sden_den (simp_ast e) (cat_list ys) dst0 eq_refl Hsn) as H2.
-  exists x, (cat_list ys). unfold den_top, find_go, den_top. rewrite H1, H2. cbn [d_next d_names dst0 rev Nat.sub].
-  repeat split; try exact Hc. intros subject. rewrite (req_find _ _ Hc). reflexivity.
+  exists x, (cat_list ys). unfold model_exact, den_top, find_go, den_top. rewrite H1, H2.
+  cbn [d_next d_names dst0 rev Nat.sub].
+  split; [reflexivity|]. split; [reflexivity|]. split; [exact Hc|]. split; [rewrite Hloops; exact Hf|].
+  intros subject. rewrite (req_find _ _ Hc). reflexivity.
 Qed.
 
 (* satisfiable: the example of the checker's documentation is in the fragment and avoids the defects *)
